@@ -53,6 +53,21 @@ def get(name):
         if key not in _rich_cache:
             _rich_cache[key] = I.generate_richardson_integrator(get(base), int(k))
         return _rich_cache[key]
+    if name.startswith("Derived:"):
+        # a user-defined method: a subclass of a shipped explicit class with a tableau of its own (the zero entries of the strictly
+        # lower triangle filled in, nodes = row sums); the parent class has been instantiated before the subclass exists
+        if name not in _rich_cache:
+            base = get(name.split(":", 1)[1])
+            base(sys_dim=(1,), dtype=np.float64, rtol=1e-6, atol=1e-6)
+            ti = np.array(base.tableau_intermediate, dtype=np.float64, copy=True)
+            A = ti[:, 1:]
+            for i in range(A.shape[0]):
+                for j in range(i):
+                    if A[i, j] == 0:
+                        A[i, j] = 1.0 / (8 * (i + j + 2))
+            ti[:, 0] = A.sum(axis=1)
+            _rich_cache[name] = type("Derived" + base.__name__, (base,), dict(tableau_intermediate=ti))
+        return _rich_cache[name]
     ex, im = _lists()
     for c in ex + im:
         if c.__name__ == name:
